@@ -33,6 +33,14 @@ pub struct Codec {
     encoder: encoder::MessageEncoder<Response<()>>,
 }
 
+/// What encoding a response needs to know about the request it answers.
+#[derive(Debug, Clone, Copy)]
+pub(crate) struct ResponseContext {
+    head: bool,
+    version: Version,
+    conn_type: ConnectionType,
+}
+
 impl Default for Codec {
     fn default() -> Self {
         Codec::new(ServiceConfig::default())
@@ -102,6 +110,25 @@ impl Codec {
     #[inline]
     pub fn config(&self) -> &ServiceConfig {
         &self.config
+    }
+
+    /// Response context of the most recently decoded request.
+    pub(crate) fn response_context(&self) -> ResponseContext {
+        ResponseContext {
+            head: self.flags.contains(Flags::HEAD),
+            version: self.version,
+            conn_type: self.conn_type,
+        }
+    }
+
+    /// Restores the context of the request whose response is about to be encoded.
+    ///
+    /// Needed with pipelining, where later requests are decoded (overwriting the context) before
+    /// the response to an earlier one is encoded.
+    pub(crate) fn set_response_context(&mut self, ctx: ResponseContext) {
+        self.flags.set(Flags::HEAD, ctx.head);
+        self.version = ctx.version;
+        self.conn_type = ctx.conn_type;
     }
 }
 
